@@ -445,3 +445,80 @@ Fixpoint prun (C : pconf) (m : pmgr) (ops : list pop) : pmgr * list (list pwrite
   | o :: r => let '(m1, ws) := pstep C m o in
               let '(m2, wss) := prun C m1 r in (m2, ws :: wss)
   end.
+
+(* ---- the invariant tying an in-memory manager to the image it persists into ---- *)
+Definition r2u_of (img : image) : list (N * N) := match i_r2u img with Some m => m | None => [] end.
+
+Definition pinv (m : pmgr) (img : image) : bool :=
+  pwf m && img_ok img
+  && match i_ids img with
+     | Some (r, v, i) => (r =? m_rid m) && (v =? m_vid m) && (i =? m_iid m)
+     | None => false
+     end
+  && forallb (fun ib => amem (fst ib) (m_r2u m)) (i_repos img)
+  && forallb (fun ib => amem (fst ib) (r2u_of img)) (m_repos m).
+
+Definition blob_writes (ws : list pwrite) : nat := length (filter is_blob_write ws).
+
+(* zero or more start-ups that were themselves killed after some of their writes *)
+Inductive rec_chain (C : pconf) : image -> image -> Prop :=
+| RC_refl img : rec_chain C img img
+| RC_step img m wr j img2 :
+    recover C img = Ok (m, wr) -> rec_chain C (apply_ws img (firstn j wr)) img2 -> rec_chain C img img2.
+
+(* every (manager, image) pair that histories of operations, crashes at any write, and restarts
+   (themselves crashing any number of times) can produce *)
+Inductive preach (C : pconf) : pmgr -> image -> Prop :=
+| R_init m wr img0 :
+    rec_chain C empty_image img0 -> recover C img0 = Ok (m, wr) -> preach C m (apply_ws img0 wr)
+| R_step m img o :
+    preach C m img -> preach C (fst (pstep C m o)) (apply_ws img (snd (pstep C m o)))
+| R_crash m img o k img2 mr wr :
+    preach C m img ->
+    rec_chain C (apply_ws img (firstn k (snd (pstep C m o)))) img2 ->
+    recover C img2 = Ok (mr, wr) ->
+    preach C mr (apply_ws img2 wr).
+
+(* ---- instance deletion including the data store (repo_local.go:2296, :2404) ----
+   deleteData marks the instance deleted IN MEMORY ONLY (the flag is not part of the blob,
+   datainstance.go:780), deletes its key-values (storage.DeleteDataInstance -> DeleteAll, flushed in
+   batches) and only then saves the repo without the instance.  The extended image adds, per
+   instance id, the number of key-values stored. *)
+Record ximage := { x_meta : image; x_kv : list (N * N) }.
+
+Inductive xwrite :=
+| XMeta (w : pwrite)
+| XDeleteBatch (iid n : N).       (* one flushed batch of DeleteAll: n key-values of instance iid removed *)
+
+Definition apply_x (x : ximage) (w : xwrite) : ximage :=
+  match w with
+  | XMeta w => {| x_meta := apply_w (x_meta x) w; x_kv := x_kv x |}
+  | XDeleteBatch iid n =>
+    let have := match aget iid (x_kv x) with Some c => c | None => 0 end in
+    {| x_meta := x_meta x; x_kv := aset iid (have - n) (x_kv x) |}
+  end.
+Definition apply_xs (x : ximage) (ws : list xwrite) : ximage := fold_left apply_x ws x.
+
+(* what a client sees: each repo's instances with the number of key-values they hold *)
+Definition xobserve (C : pconf) (x : ximage) : res (list (N * list (N * N))) :=
+  match recover C (x_meta x) with
+  | Ok (m, _) =>
+    Ok (map (fun ib => (fst ib,
+                        map (fun ni => (fst ni, match aget (snd ni) (x_kv x) with Some c => c | None => 0 end))
+                            (pr_data (snd ib)))) (m_repos m))
+  | Err => Err
+  | Panic => Panic
+  end.
+
+(* the writes of deleting instance [name] of repo [rid] holding [n] key-values, in batches of [b] *)
+Definition delete_data_writes (m : pmgr) (rid name n b : N) : list xwrite :=
+  match aget rid (m_repos m) with
+  | None => []
+  | Some r =>
+    match aget name (pr_data r) with
+    | None => []
+    | Some iid =>
+      let batches := if n <=? b then [XDeleteBatch iid n] else [XDeleteBatch iid b; XDeleteBatch iid (n - b)] in
+      batches ++ map XMeta (snd (op_delete_data m rid name))
+    end
+  end.
